@@ -233,7 +233,9 @@ def run(ctx, model_ok=True):
     for _ in range(ctx.n(45, 400)):
         c = date_case(ctx.rng)
         r = date_run(ctx, c)
-        ctx.case({"kind": c["kind"], "opts": c["opts"], "result": r}, nontrivial=r is not None, kind="date/" + c["kind"])
+        ctx.case({"kind": c["kind"], "opts": c["opts"], "result": r, "exotic": c.get("exotic", [])}, nontrivial=r is not None, kind="date/" + c["kind"])
+        for k in c.get("exotic", []):
+            ctx.tally("exotic-" + k)
     # the phase switch of infer() against the model (shared with C23), and its range on the fit object
     from props import c23
     items = []
